@@ -3,13 +3,16 @@ Open Scope Q_scope.
 (* One Lattice layer / lattice_lib call: interpolation scheme (true = simplex),
    input form (true = one tensor, false = list of per-feature tensors),
    clip_inputs, units, lattice sizes, kernel K[p][u], a batch of points (one
-   coordinate row per unit; a single row when units = 1) and the
-   implementation's outputs (one row per point, one value per unit). *)
+   coordinate row per unit; a single row when units = 1), the
+   implementation's outputs (one row per point, one value per unit) and the
+   relative tolerance of the comparison (tol = 1e-9 for float64 runs, tol32 =
+   1e-5 for float32 runs). *)
 Record case := mk { c_simplex : bool; c_tensor : bool; c_clip : bool; c_units : nat; c_sizes : list nat;
-                    c_K : list (list Q); c_pts : list (list (list Q)); c_outs : list (list Q) }.
+                    c_K : list (list Q); c_pts : list (list (list Q)); c_outs : list (list Q); c_tol : Q }.
 Definition tol : Q := 1 # 1000000000.
+Definition tol32 : Q := 1 # 100000.
 Definition check (c : case) : bool :=
-  qmat_close tol
+  qmat_close (c_tol c)
     (lattice_eval (if c_simplex c then Simplex else Hypercube) (c_tensor c) (c_clip c) (c_units c)
                   (c_sizes c) (c_K c) (c_pts c))
     (c_outs c).
